@@ -167,7 +167,8 @@ def _extract_flags(
     for attr in attrs:
         value = attr.serialize(omit_key=True)
 
-        if value not in allowed_flags:
+        # NOTE: Only a bare word is a flag. `key=only` is a kwarg whose value is the variable `only`.
+        if attr.key is not None or value not in allowed_flags:
             remaining_attrs.append(attr)
             continue
 
